@@ -11,7 +11,7 @@ import (
 	"verif/internal/ref"
 )
 
-var feats = gen.Features{NestedDisj: true, TopDisj: true, Call: true, Lib: true}
+var feats = gen.Features{NestedDisj: true, TopDisj: true, Call: true, Lib: true, Strings: true}
 
 func check(p *gen.Program) error {
 	opts := diff.DefaultOpts()
@@ -28,7 +28,7 @@ func init() { h.Reg("c01", func(p *gen.Program) error { return check(p) }) }
 func TestProp(t *testing.T) {
 	r := h.Start(t, "C01")
 	defer r.Finish(t)
-	r.Rule("rapid-generated programs (1-4 predicates over a signature with the same name at several arities, 1-4 clauses each, heads and goals with nested compounds / proper and partial lists / repeated and singleton variables, conjunction, nested and top-level disjunction, call/1..4 with closures and variable goals, recursive library templates app/3 mem/2 nat/1 len/2; no cut, no if-then-else, no negation) and queries of 1-3 goals; 30% of the programs are loaded with assertz instead of Exec. Oracle: the reference SLD machine (internal/ref); compared: the sequence of answers (tuple of all query variables up to renaming; first 25), then exhaustion or the final error term (context masked); when the reference runs out of inferences after n >= 1 answers (an infinite or long search) the first n answers are compared and nothing else. Non-trivial: the reference run has >= 2 answers, or >= 1 answer after a backtrack into a predicate's remaining clauses; and a rule body with >= 2 goals was entered. Distinct by (program, query).",
+	r.Rule("rapid-generated programs (1-4 predicates over a signature with the same name at several arities, 1-4 clauses each, heads and goals with nested compounds / proper and partial lists / double-quoted strings (the same lists in the compact representation) / repeated and singleton variables, conjunction, nested and top-level disjunction, call/1..4 with closures and variable goals, recursive library templates app/3 mem/2 nat/1 len/2; no cut, no if-then-else, no negation) and queries of 1-3 goals; 30% of the programs are loaded with assertz instead of Exec. Oracle: the reference SLD machine (internal/ref); compared: the sequence of answers (tuple of all query variables up to renaming; first 25), then exhaustion or the final error term (context masked); when the reference runs out of inferences after n >= 1 answers (an infinite or long search) the first n answers are compared and nothing else. Non-trivial: the reference run has >= 2 answers, or >= 1 answer after a backtrack into a predicate's remaining clauses; and a rule body with >= 2 goals was entered. Distinct by (program, query).",
 		"the reference machine is correct (self-tested on ISO examples, DESIGN.md 2.3)",
 		"cases whose reference run exceeds 4000 inferences / the work budget, performs a unification subject to occurs check, or calls a list as a goal are discarded and counted")
 	if r.Shard() == 0 {
